@@ -80,6 +80,30 @@ func genC01(r *Rng, tier string) *Plan {
 			g.P.Meta["pubkey-manipulated"] = "1"
 		}
 	}
+	// an issuer whose own key identifier is given as raw bytes (a CA numbering its keys by hand): a
+	// child's authorityKeyIdentifier requested as `hash` is the hash of the issuer's key bits all the
+	// same, so here the two identifiers differ by design
+	for _, e := range g.Ents {
+		if ch := g.children(e); len(ch) > 0 && e.Manip == nil && r.Chance(1, 6) {
+			var xs []ExtSpec
+			for _, x := range e.Exts {
+				if x.Kind != "subjectKeyIdentifier" {
+					xs = append(xs, x)
+				}
+			}
+			e.Exts = append(xs, ExtSpec{Kind: "subjectKeyIdentifier", Raw: "!binary:" + b64(derOctets(r.Bytes(r.Range(1, 20))))})
+			for _, c := range ch {
+				has := c.Manip != nil
+				for _, x := range c.Exts {
+					has = has || x.Kind == "authorityKeyIdentifier"
+				}
+				if !has {
+					c.Exts = append(c.Exts, ExtSpec{Kind: "authorityKeyIdentifier", Content: rawJSON(map[string]any{"id": "hash"})})
+				}
+			}
+			g.P.Meta["raw-ski-issuer"] = "1"
+		}
+	}
 	strTypes := []string{"printable", "utf8", "utf8", "ia5", "teletex", "bmp"}
 	foreign := func(e *EntitySpec, label string) {
 		fp := ForeignParams{Parts: "cert+key", Str: Pick(r, strTypes), KeyAlg: e.KeyAlg, Pub: r.Bool(), AltDN: r.Chance(1, 3),
@@ -88,6 +112,12 @@ func genC01(r *Rng, tier string) *Plan {
 			fp.P8 = Pick(r, []string{"null", "noparams"})
 		} else if r.Chance(1, 3) {
 			fp.Point = "compressed" // as `openssl ec -conv_form compressed` leaves it (used for NIST curves only)
+		}
+		if r.Chance(1, 3) {
+			// the imported certificate has a key identifier of its own that is not SHA-1 of its key
+			// (RFC 7093 methods, a CA's own numbering): a child's identifier requested as `hash` is
+			// still the hash of the issuer's key bits
+			fp.Ski = Pick(r, []string{"sha256", "custom", "short"})
 		}
 		if e.Issuer == "" && r.Chance(1, 8) {
 			// an imported issuer whose certificate has no subject at all (an empty SEQUENCE): its
